@@ -47,7 +47,7 @@ def mutating_storage_calls(b, cg, storage_local):
 def run(ctx):
     fa = ctx.facts
     cg = CallGraph(fa)
-    C01.run(ctx)   # the log protocol is a necessary part of C02
+    # the log protocol (C01) is a necessary part of C02: it is re-evaluated by C03.run below
     # a crash snapshot is readable only if every committed state is: the header chain of the file (C04) and the
     # single storage bracket around a transaction including its rollback (C03) are necessary parts as well
     from rules import C03, C04
